@@ -1,10 +1,12 @@
 -------------------------- MODULE C17_gossip_targeted --------------------------
-(* The targeted sequences of TMPeerGossip as a case set: every case is an initial state (the dump
-   is the work list of the consensus sequence harness); TLC runs each through the model.        *)
+(* The targeted cases of TMPeerGossip as a case set: every case (node class, sequence) is an initial state (the
+   dump is the work list of the consensus sequence harness); TLC runs each through the model, the node's
+   carrying on included.                                                                          *)
 EXTENDS TMPeerGossip
 MCSizes == {0, N - 1, N, N + 1, N + 63, N + 64, N + 128, MaxVotes}
-VARIABLE sq
-TInit == sq \in TargetedSeqs
-TNext == UNCHANGED sq
-TargetedNoCrash == ~RunSeq(NewPRS, sq).crash
+VARIABLE cs
+TInit == cs \in TargetedSeqs
+TNext == UNCHANGED cs
+TargetedNoCrash == ~RunCase(cs).crash
+TargetedNoHalt  == ~RunCase(cs).halt
 =============================================================================
